@@ -548,3 +548,17 @@ V('c06-subcomponent-ignores-chars', 'C06', 'hl7apy/core.py', "            return
   rule='C06-D')
 V('c06-twin-raw-string', 'C06', 'hl7apy/base_datatypes.py', "r'(?<!%s[HNFSTRE])%s(?![HNFSTRE]%s)'", "r'(?<!%s[EHNFSTR])%s(?![EHNFSTR]%s)'",
   expect='clean')
+
+# ---------------------------------------------------------------- C13
+V('c13-offset-regex-widened', 'C13', 'hl7apy/utils.py', "(\\+(1[0-4]|0[0-9])|(-(1[0-2]|0[0-9])))", "(\\+(1[0-5]|0[0-9])|(-(1[0-2]|0[0-9])))", rule='C13-O')
+V('c13-offset-minutes-widened', 'C13', 'hl7apy/utils.py', "([0-5][0-9]))$'", "([0-6][0-9]))$'", rule='C13-O')
+V('c13-ctor-bound-tightened', 'C13', 'hl7apy/base_datatypes.py', "d.hour > 14 or offset[0] == '-' and d.hour > 12", "d.hour > 13 or offset[0] == '-' and d.hour > 12", rule='C13-O')
+V('c13-precision-length-12', 'C13', 'hl7apy/utils.py', "    elif 8 <= len(value) <= 11 and value[6] == '.':", "    elif 8 <= len(value) <= 12 and value[6] == '.':", rule='C13-P')
+V('c13-precision-offset', 'C13', 'hl7apy/utils.py', "        microsec = len(value) - 7", "        microsec = len(value) - 8", rule='C13-P')
+V('c13-new-date-format', 'C13', 'hl7apy/utils.py', "    if len(value) == 4:\n        fmt = '%Y'\n    elif len(value) == 6:", "    if len(value) == 4:\n        fmt = '%Y'\n    elif len(value) == 2:\n        fmt = '%y'\n    elif len(value) == 6:", rule='C13-F')
+V('c13-allowed-formats-shrink', 'C13', 'hl7apy/base_datatypes.py', "    allowed_formats = ('%H', '%H%M', '%H%M%S', '%H%M%S.%f')", "    allowed_formats = ('%H%M', '%H%M%S', '%H%M%S.%f')", rule='C13-F')
+V('c13-dtm-format-missing', 'C13', 'hl7apy/base_datatypes.py', "    allowed_formats = ('%Y', '%Y%m', '%Y%m%d', '%Y%m%d%H', '%Y%m%d%H%M',", "    allowed_formats = ('%Y', '%Y%m', '%Y%m%d', '%Y%m%d%H%M',", rule='C13-F')
+V('c13-nm-drops-level', 'C13', 'hl7apy/base_datatypes.py', "        super(NM, self).__init__(value, 16, validation_level)", "        super(NM, self).__init__(value, 16)", rule='C13-L')
+V('c13-si-factory-drops-level', 'C13', 'hl7apy/factories.py', "        return datatype_cls(int(value), validation_level=validation_level)", "        return datatype_cls(int(value))", rule='C13-L')
+V('c13-dt-drops-format', 'C13', 'hl7apy/base_datatypes.py', "        super(DT, self).__init__(value, out_format)", "        super(DT, self).__init__(value, '%Y%m%d')", rule='C13-F')
+V('c13-twin-regex-grouping', 'C13', 'hl7apy/utils.py', "(\\+(1[0-4]|0[0-9])|(-(1[0-2]|0[0-9])))", "(\\+(0[0-9]|1[0-4])|(-(0[0-9]|1[0-2])))", expect='clean')
